@@ -467,13 +467,13 @@ func runComb(t *testing.T, c comb, withFail bool) {
 }
 
 func TestThread(t *testing.T) {
-	for _, c := range combs() {
+	for _, c := range append(combs(), arityCombs()...) {
 		runComb(t, c, false)
 	}
 }
 
 func TestFailure(t *testing.T) {
-	for _, c := range combs() {
+	for _, c := range append(combs(), arityCombs()...) {
 		runComb(t, c, true)
 	}
 }
